@@ -537,7 +537,7 @@ def build_lim_db():
 
 
 SIZES = {
-    "quick": dict(frac_new=2500, frac_ops=5000, fv=3000, str=4000, parse=5000, cff=4000, per_type=8, nvals=1, misc=2500),
+    "quick": dict(frac_new=8000, frac_ops=16000, fv=8000, str=12000, parse=16000, cff=12000, per_type=25, nvals=1, misc=8000),
     "thorough": dict(frac_new=30000, frac_ops=60000, fv=30000, str=50000, parse=60000, cff=60000, per_type=None, nvals=2, misc=25000),
 }
 
@@ -963,7 +963,20 @@ def _printable(q):
     return (abs(q) * Q(10) ** (5 - e)).denominator == 1
 
 
-def oracle(c, ctx):
+# Input classes on which the UNCHANGED code violates C18 (reported to the maintainer of known_findings.json with exact
+# failing inputs; see FINDING_CASES).  The oracle does not report them again as new violations; `replay_finding`
+# replays one witness of each for the KNOWN-FINDING lines.
+KNOWN_CLASSES = ("tiny-increment", "g-exponent", "repr-exponent")
+
+
+def oracle(c, ctx, report_known=False):
+    f = _oracle_pushed(c, ctx)
+    if f and not report_known and f.get("known_class") in KNOWN_CLASSES:
+        return None
+    return f
+
+
+def _oracle_pushed(c, ctx):
     from barril.units.unit_database import UnitDatabase
 
     push = c["op"].startswith(("fs_", "db_"))
@@ -1047,7 +1060,8 @@ def _oracle(c, ctx):
                 b = t["b"]
                 wb = _fv_q(b) if "x" in b else exact(_obj(b["num"]))
                 ob = _fv(b) if "x" in b else _obj(b["num"])
-                if abs(want - wb) > Q(1, 10 ** 9) * max(abs(want), abs(wb), abs(exact(_obj(v["n"])))):
+                fe = _fexact(v) and (_fexact(b) if "x" in b else _dyadic(b["num"]))
+                if fe or abs(want - wb) > Q(1, 10 ** 9) * max(abs(want), abs(wb), abs(exact(_obj(v["n"])))):
                     got = _pyop(c["f"], fv, ob)
                     if bool(got) != _pyop(c["f"], want, wb):
                         return dict(clause="order of FractionValues is the order of their amounts", f=c["f"], a=_show_val(v), b=_show_val(b), got=bool(got))
@@ -1119,7 +1133,8 @@ def _oracle(c, ctx):
             sa, sb = Scalar.CreateWithQuantity(qa, float(_fv(a["v"]))), Scalar.CreateWithQuantity(qb, float(_fv(b["v"])))
             l, r = sa.GetValue(), sb.GetValue(a["unit"])
             z = Scalar.CreateWithQuantity(qb, 0.0).GetValue(a["unit"])
-            if abs(l - r) <= 1e-7 * (abs(l) + abs(r) + abs(z)):
+            fe = a["unit"] == b["unit"] and _fexact(a["v"]) and _fexact(b["v"])
+            if not fe and abs(l - r) <= 1e-7 * (abs(l) + abs(r) + abs(z)):
                 return None
             got, want = _pyop(c["f"], fa, fb), _pyop(c["f"], sa, sb)
             return None if bool(got) == bool(want) else dict(clause="FractionScalars compare like Scalars holding float(value)", f=c["f"], a=_show_val(a),
@@ -1176,6 +1191,75 @@ def search(ctx):
         yield c
 
 
+SIMPLE_FV = [dict(n=_I(5), x=[1, 2]), dict(n=_I(0), x=[1, 2]), dict(n=_I(-5), x=[-1, 2]), dict(n=_I(2), x=[3, 4]), dict(n=_F(2.5), x=[1, 8])]
+SIMPLE_PAIRS = [[1, 2], [-1, 2], [3, 4], [0, 1], [5, 3], [-7, 8]]
+
+
+def _simpler(c):
+    """simpler variants of a failing case, most drastic first"""
+    op, t = c["op"], c["_t"]
+    if op in ("fs_convert", "db_convert"):
+        for v in SIMPLE_FV:
+            kw = {k: w for k, w in t.items() if k != "db"}
+            kw["v"] = v
+            yield c_fs(op, db=t.get("db", "posc"), **kw)
+    elif op in ("fs_order", "fs_valid", "fs_eq"):
+        for va in SIMPLE_FV:
+            for vb in SIMPLE_FV[:3]:
+                kw = copy.deepcopy({k: w for k, w in t.items() if k != "db"})
+                kw["a"]["v"] = va
+                if "b" in kw:
+                    kw["b"]["v"] = vb
+                if "f" in c:
+                    kw["f"] = c["f"]
+                yield c_fs(op, db=t.get("db", "posc"), **kw)
+    elif op == "cff" and _fin(t["x"]):
+        x = _obj(t["x"])
+        for x2 in (0.5, -0.5, 2.75, -2.75, 0.375):
+            yield c_cff(_F(x2))
+        if isinstance(x, float):
+            for d in range(1, 9):
+                yield c_cff(_F(float("%.*g" % (d, x))))
+    elif op in ("fv_str", "fv_strparse", "fv_float", "fv_copy"):
+        for v in SIMPLE_FV:
+            yield c_fv1(op, v)
+        v = copy.deepcopy(t["v"])
+        yield c_fv1(op, dict(n=v["n"], x=[1, 2]))
+        yield c_fv1(op, dict(n=_I(5), x=v["x"]))
+    elif op == "fv_cmp":
+        for va in SIMPLE_FV:
+            for vb in SIMPLE_FV:
+                yield c_fv_cmp(c["f"], va, vb)
+    elif op == "frac_bin":
+        for x in SIMPLE_PAIRS:
+            for y in SIMPLE_PAIRS:
+                yield c_frac_bin(c["f"], x, dict(t="frac", x=y))
+            yield c_frac_bin(c["f"], x, t["o"])
+    elif op == "frac_cmp":
+        for x in SIMPLE_PAIRS:
+            for y in SIMPLE_PAIRS:
+                yield c_frac_cmp(c["f"], x, dict(t="frac", x=y), False)
+            yield c_frac_cmp(c["f"], x, t["o"], c["refl"])
+    elif op == "frac_un":
+        for x in SIMPLE_PAIRS:
+            yield c_frac_un(c["f"], x)
+    elif op == "frac_new":
+        for a in (_I(1), _I(3), _F(0.5), _F(1.5), _F(0.25)):
+            for b in (None, _I(2), _I(-4)):
+                yield c_frac_new(a, b)
+
+
+def shrink(case, failure, ctx):
+    try:
+        for c2 in _simpler(case):
+            f2 = oracle(c2, ctx)
+            if f2:
+                return c2, f2
+    except Exception:
+        pass
+    return case, failure
+
+
 def matches_known(entry, case, failure):
     return bool(entry.get("class")) and failure.get("known_class") == entry.get("class")
 
@@ -1191,4 +1275,4 @@ def replay_finding(entry, ctx):
     mk = FINDING_CASES.get(entry.get("class"))
     if mk is None:
         return None
-    return oracle(mk(), ctx)
+    return oracle(mk(), ctx, report_known=True)
